@@ -8,8 +8,13 @@
   relaxed pre-loads, spurious CAS failures.  A granted agent is one between the step in which its
   acquiring CAS succeeds and the step that releases it; an upgrader keeps its SIX grant while it waits.
   Capacity hypothesis: fewer requests than the documented width of the shared counter (2^62 / 2^30).
+
+  MCSLock: `c01_mcs` (= `mcs_exclusion`, `Props/McsProto.lean`): the same statement for every reachable state of
+  the step-faithful MCS model, from the protocol invariant of `Proofs/Mcs*.lean` (queue of groups, meaning of
+  every lock / node word, node ownership), at the regenerated constants.
 -/
 import CppUtil.Props.WSpecs
+import CppUtil.Props.McsProto
 
 namespace CppUtil.Props
 open CppUtil CppUtil.WLock
@@ -75,5 +80,14 @@ def demoUpg : List Act :=
 
 example : ∃ s, run (Gen.opt 1) init demoUpg = some s ∧ holds s 0 .X ∧ s.agents.length < 2 ^ 30 := by
   refine ⟨_, rfl, ⟨_, rfl, rfl⟩, by decide⟩
+
+/-- C01 for MCSLock. -/
+theorem c01_mcs (nlocks nthreads : Nat) (acts : List Mcs.Act)
+    (hr : Mcs.RunOK mcsPb mcsCb mcsParams (Mcs.mkSt nlocks nthreads) acts)
+    (i j : Nat) (a b : Mcs.Agent) (m m' : Mode) (hij : i ≠ j)
+    (hi : (Mcs.run mcsParams (Mcs.mkSt nlocks nthreads) acts).agents[i]? = some a)
+    (hj : (Mcs.run mcsParams (Mcs.mkSt nlocks nthreads) acts).agents[j]? = some b) (hlk : a.lk = b.lk)
+    (hga : a.loc.grant? = some m) (hgb : b.loc.grant? = some m') : conflict m m' = false :=
+  mcs_exclusion nlocks nthreads acts hr i j a b m m' hij hi hj hlk hga hgb
 
 end CppUtil.Props
